@@ -143,6 +143,19 @@ func (k *keyManagementContext) checkMessageCounter(message dataMsg) error {
 	return nil
 }
 
+// macKeysToRevealWhenReplaced returns copies of all the MAC keys that are
+// waiting to be revealed, and of the receiving MAC keys of all key pairs still in use
+func (k *keyManagementContext) macKeysToRevealWhenReplaced() []macKey {
+	var ret []macKey
+	for _, m := range k.oldMACKeys {
+		ret = append(ret, makeCopy(m))
+	}
+	for _, u := range k.macKeyHistory.items {
+		ret = append(ret, makeCopy(u.receivingKey))
+	}
+	return ret
+}
+
 func (k *keyManagementContext) revealMACKeys() []macKey {
 	ret := k.oldMACKeys
 	k.oldMACKeys = []macKey{}
